@@ -103,12 +103,40 @@ func sortedSet(m map[string]bool) []string {
 	return out
 }
 
+// preProbe: results of locateImportedProbe taken right after Load, before anything else was asked of the universe (corpus)
+var preProbe = map[string][]string{}
+
+func locateImportedProbe(u *gengotypes.Universe, p gengotypes.Package) []string {
+	bad := []string{}
+	for _, ip := range p.Pkg().Imports() {
+		for _, n := range ip.Scope().Names() {
+			if obj := ip.Scope().Lookup(n); obj != nil && obj.Pos().IsValid() {
+				got := u.LocateInPackage(obj.Pos())
+				if want := u.Package(ip.Path()); want != nil && want.Module() != nil {
+					if got == nil || got.Pkg().Path() != ip.Path() {
+						bad = append(bad, ip.Path()+"."+n)
+					}
+				}
+				break
+			}
+		}
+	}
+	return bad
+}
+
 func universeObserve(u *gengotypes.Universe, p gengotypes.Package) map[string]any {
 	o := map[string]any{"types": []string{}, "scope_types": []string{}, "consts": []string{}, "scope_consts": []string{}, "funcs": []string{}, "scope_funcs": []string{},
 		"identity_bad": []string{}, "methods": []any{}, "imports_nil": []string{}, "imports_other": []string{}, "imports_keys": []string{}, "imports_want": []string{},
-		"in_module": false, "locate_bad": []string{}, "srcdir_ok": true, "path": p.Pkg().Path()}
+		"in_module": false, "locate_bad": []string{}, "locate_imported_bad": []string{}, "srcdir_ok": true, "path": p.Pkg().Path()}
 	pn := core.Try(func() {
 		tp := p.Pkg()
+		// positions reached through the type checker's view of the IMPORTED packages - before this harness has asked the
+		// universe for those packages: LocateInPackage must know every loaded package, requested or not
+		locImpBad, done := preProbe[tp.Path()]
+		if !done {
+			locImpBad = locateImportedProbe(u, p)
+		}
+		o["locate_imported_bad"] = locImpBad
 		scope := tp.Scope()
 		st, sc, sf := map[string]bool{}, map[string]bool{}, map[string]bool{}
 		identityBad := []string{}
@@ -270,6 +298,11 @@ func (universeFam) ExecAll(cases []core.CaseIn, seed int64, emit func(c core.Cas
 				order = append(order, p)
 				for _, ip := range p.Pkg().Imports() {
 					walk(u.Package(ip.Path()))
+				}
+			}
+			for path := range u.LocalPkgPaths() {
+				if p := u.Package(path); p != nil {
+					preProbe[path] = locateImportedProbe(u, p)
 				}
 			}
 			for path := range u.LocalPkgPaths() {
